@@ -11,7 +11,7 @@
 (* independent, so the rest of the trace is still checked): the verdict is *)
 (* printed and counted, and the logged effect becomes the next state.      *)
 (***************************************************************************)
-EXTENDS Bid, Text, Json, IOUtils
+EXTENDS Bid, Codec, Json, IOUtils
 
 Events == ndJsonDeserialize(IOEnv.VERIF_TRACE)
 
@@ -159,6 +159,59 @@ StringVerdict(e) ==
      ELSE IF ~(back.err = "none" /\ (IF x.k = "nan" THEN back.val.k = "nan" ELSE ResEq(back.val, x))) THEN "specfault:roundtrip"
      ELSE "ok"
 
+\* C13: JSON
+Zero16 == [i \in 1..16 |-> 0]
+SameVal(x, b) == LET r == Decode(b) IN IF x.k = "nan" THEN r.k = "nan" ELSE ResEq(x, r)
+JsonMarshalVerdict(e) ==
+  LET x == Decode(e.x) IN
+  IF x.k # "fin" THEN B2S(e.mjerr = "unsupported" /\ e.docerr = "unsupported")     \* *json.UnsupportedValueError
+  ELSE IF e.mjerr # "none" THEN "reject:MarshalJSON-error"
+  ELSE IF ~JsonTextOK(x, e.mj) THEN "reject:MarshalJSON-text"
+  ELSE IF ~(e.ujerr = "none" /\ SameVal(x, e.uj)) THEN "reject:UnmarshalJSON-back"
+  ELSE IF ~(e.docerr = "none" /\ SameVal(x, e.d1) /\ SameVal(x, e.d2) /\ SameVal(x, e.d3) /\ SameVal(x, e.d4)) THEN "reject:encoding/json"
+  ELSE "ok"
+\* direct UnmarshalJSON of arbitrary bytes; kind of input decided here, not by the driver
+JsonUnmarshalVerdict(e) ==
+  IF e.s = cNULL THEN B2S(e.err = "none" /\ e.r = e.prev)                          \* null leaves the receiver untouched
+  \* empty input (no JSON value at all; never produced by encoding/json): the repository's own test pins
+  \* "no error, receiver untouched"; no value is produced, so either that or an error is accepted
+  ELSE IF e.s = << >> THEN B2S(e.r = e.prev)
+  ELSE IF IsJsonNumber(e.s) THEN
+       LET ps == ParseSem(e.s, mode) IN
+       IF ps.err = "range" THEN B2S(e.err # "none" /\ e.r = e.prev)
+       ELSE IF e.err # "none" THEN "reject:number-refused"
+       ELSE Agrees(ps.ex, Decode(e.r), mode)
+  ELSE \* not a JSON number: an error, or (direct call only) the value Parse gives for that text, never another one
+       IF e.err # "none" THEN B2S(e.r = e.prev)
+       ELSE LET ps == ParseSem(e.s, mode) IN
+            IF ps.err = "none" /\ ps.val.k = "fin" /\ Agrees(ps.ex, Decode(e.r), mode) \in OkSet THEN "ok"
+            ELSE "reject:non-number-accepted"
+\* a document {"A":t,"B":[t,t],"C":{"k":t},"D":t} decoded by encoding/json
+JsonDocVerdict(e) ==
+  IF IsJsonNumber(e.s) THEN
+       LET ps == ParseSem(e.s, mode) IN
+       IF ps.err = "range" THEN B2S(e.err # "none")
+       ELSE IF e.err # "none" THEN "reject:number-refused"
+       ELSE LET a == Agrees(ps.ex, Decode(e.d1), mode) IN
+            IF a \notin OkSet THEN a
+            ELSE B2S(e.d2 = e.d1 /\ e.d3 = e.d1 /\ e.d4 = e.d1 /\ e.d5 = e.d1)
+  ELSE IF e.s = cNULL THEN B2S(e.err = "none" /\ e.d1 = e.prev)
+  ELSE B2S(e.err # "none")                                                          \* another JSON type: an error
+
+\* C14
+ComposeVerdict(e) ==
+  LET cs == ComposeSem(e.form, e.neg, e.sig, e.exp) IN
+  IF cs.err # "none" THEN B2S(e.err # "none")                                      \* an error, never a rounded value
+  ELSE IF e.err # "none" THEN "reject:refused"
+  ELSE IF cs.v.k = "nan" THEN B2S(Decode(e.r).k = "nan")
+  ELSE B2S(ResEq(cs.v, Decode(e.r)))
+DecomposeVerdict(e) ==
+  LET x == Decode(e.x) IN
+  IF ~DecomposeOK(x, e.form, e.neg, e.sig, e.exp) THEN "reject:parts"
+  ELSE IF ~(e.backerr = "none" /\ SameVal(x, e.back)) THEN "reject:Compose-back"
+  ELSE IF ~e.bufok THEN "reject:buffer"
+  ELSE "ok"
+
 \* documented panics only: anything else that panicked is rejected before its own verdict is consulted
 PanicAllowed(e) ==
   \/ e.op \in {"Sign", "Payload", "Int", "Rat", "Float", "Int32", "Int64", "Uint32", "Uint64"}
@@ -175,6 +228,11 @@ RawVerdict(e) ==
          [] e.op \in {"New", "Ldexp", "Frexp"} -> ScaleVerdict(e)
          [] e.op = "Canonical" -> CanonVerdict(e)
          [] e.op = "Parse" -> ParseVerdict(e)
+         [] e.op = "MarshalJSON" -> JsonMarshalVerdict(e)
+         [] e.op = "UnmarshalJSON" -> JsonUnmarshalVerdict(e)
+         [] e.op = "UnmarshalDoc" -> JsonDocVerdict(e)
+         [] e.op = "Compose" -> ComposeVerdict(e)
+         [] e.op = "Decompose" -> DecomposeVerdict(e)
          [] e.op = "String" -> StringVerdict(e)
          [] e.op \in {"MarshalBinary", "UnmarshalBinary"} -> BinaryVerdict(e)
          [] e.op \in {"Neg", "Abs", "Min", "Max", "Equal", "Compare", "IsZero", "IsNaN", "IsInf", "Signbit", "Sign"} -> MiscVerdict(e)
